@@ -505,3 +505,6 @@ pub mod __macro_refs {
 }
 
 pub mod __derive_refs;
+#[cfg(starlark_verif)]
+#[doc(hidden)]
+pub mod __verif;
